@@ -4,11 +4,14 @@ package wk
 
 import (
 	"bufio"
+	"bytes"
 	"encoding/json"
 	"flag"
 	"fmt"
 	"os"
+	"os/exec"
 	"sort"
+	"strings"
 	"sync"
 
 	"verif/simrt"
@@ -132,6 +135,31 @@ func (u *Unit) Observe(key, val string) {
 		u.Vec = map[string]string{}
 	}
 	u.Vec[key] = val
+}
+
+// Child runs this worker binary again as a fresh OS process in the given mode over unit run and
+// returns the observations it emitted.  It is how a check compares a result with what a process
+// with a different history computes.
+func (c *Ctx) Child(mode string, run int, extra string) (map[string]string, error) {
+	args := []string{"-prop", c.Prop, "-mode", mode, "-seed", fmt.Sprint(c.Seed), "-tier", c.Tier, "-start", fmt.Sprint(run), "-count", "1",
+		"-repo", c.Repo, "-sites", c.Sites, "-variant", c.Variant, "-file", c.File, "-extra", extra}
+	cmd := exec.Command(os.Args[0], args...)
+	var errb bytes.Buffer
+	cmd.Stderr = &errb
+	out, err := cmd.Output()
+	if err != nil {
+		return nil, fmt.Errorf("child worker (%s): %v: %s", mode, err, errb.String())
+	}
+	vec := map[string]string{}
+	for _, line := range strings.Split(string(out), "\n") {
+		var u Unit
+		if json.Unmarshal([]byte(line), &u) == nil && u.Ev == "end" {
+			for k, v := range u.Vec {
+				vec[k] = v
+			}
+		}
+	}
+	return vec, nil
 }
 
 // Stop tells the driver that the worker ends its block early on purpose.
